@@ -106,6 +106,8 @@ def shrink(case, still_fails):
 
 
 def check(run):
+    import genlib as _gl
+    _gl.validate_reference_get(run, n=run.n(20, 200))
     import genlib
     genlib.validate_eam_builder(run, n=run.n(30, 300))
     genlib.validate_tabulation_objects(run, kinds=("setfl",), n=run.n(8, 60))
